@@ -518,6 +518,7 @@ Proof.
   - need_slot p s Hp. cbn [fst]. auto using put_none_coh.
   (* threads, lifetime *)
   - need_slot p s Hp. apply put_some_coh; auto. apply set_data_coh'; auto. apply zlen_map.
+  - need_slot p s Hp; exact Hp.
   - need_slot p s Hp. cbn [fst]. auto using put_none_coh.
 Qed.
 
